@@ -196,6 +196,7 @@ class FaultCheck:
         s.entry = params.get('entry', 'run')
         s.kinds = params.get('kinds', list(range(len(s.KINDS))))
         s.chunk = params.get('chunk', 1)
+        s.tail_len = params.get('tail', 3)
         s.twin = params.get('twin', False)
 
     def faulty_unit(s, kind, rel):
@@ -248,6 +249,16 @@ class FaultCheck:
         pre = ex.decide([(i, True) for i in range(2)])         # preceding message or not
         rel = shape in (1, 3) and ex.decide([(0, True), (1, True)]) == 1
         fbytes, fcall, fscript, ferr = s.faulty_unit(kind, rel)
+        # a message the parser rejects is discarded up to its terminator whatever else it contains: append a tail of
+        # arbitrary bytes (everything but LF) to the two parse-level fault kinds
+        s.tail = []
+        if s.KINDS[kind] in ('invalid-byte', 'undefined-mnemonic') and s.tail_len and shape == 0:
+            tl = ex.decide([(i, True) for i in range(0, s.tail_len + 1)])
+            s.tail = [z3.BitVec(f'ft{i}', 8) for i in range(tl)]
+            for b in s.tail:
+                ex.solver.add(b != 10)
+            if s.tail:
+                fbytes = fbytes + [32] + s.tail
         before = [(list(b':A:C'), 1)] if shape in (1, 3) else []
         # the unit after the fault: a common command, or (after a relative faulty unit) a unit relative to A
         after = []
@@ -361,7 +372,7 @@ class PayloadCheck:
     def body(s):
         ex, w = s.ex, s.w
         from ..natives import in_range
-        prefix = ex.decide([(i, True) for i in range(2)])
+        prefix = ex.decide([(i, True) for i in range(3)])     # 0: none, 1: 'A:B;' (relative context), 2: a string unit 'S "a";' first
         form = ex.decide([(i, True) for i in range(3)])          # 0: #block, 1: "string", 2: 'string'
         suffix = ex.decide([(i, True) for i in range(2)])
         ln = ex.decide([(i, True) for i in range(0, s.maxlen + 1)])
@@ -383,10 +394,16 @@ class PayloadCheck:
                 ex.solver.add(z3.ULT(pay[0], 128))
             lit = [q] + pay + [q]
             hdr = b'S'
-        msg = (list(b'A:B;') if prefix else []) + list(hdr) + [32] + lit + (list(b';C') if suffix else []) + [10]
+        pre_bytes = [b'', b'A:B;', b'S "a";'][prefix]
+        msg = list(pre_bytes) + list(hdr) + [32] + lit + (list(b';C') if suffix else []) + [10]
+        # a following message with a relative header: it must be resolved from the root (the path must not survive the terminator)
+        probe = ex.decide([(0, True), (1, True)]) == 1
+        if probe:
+            msg = msg + list(b'C\n')
         s.msg = msg
-        hid = {(0, b'K'): 7, (1, b'K'): 8, (0, b'S'): 9, (1, b'S'): 10}[(prefix, hdr)]
-        exp = ([('call', 0, ())] if prefix else []) + [('call', hid, (('slice', tuple(pay)),))] + ([('call', 1 if prefix else 2, ())] if suffix else [])
+        hid = {(0, b'K'): 7, (1, b'K'): 8, (0, b'S'): 9, (1, b'S'): 10, (2, b'K'): 7, (2, b'S'): 9}[(prefix, hdr)]
+        pre_exp = [[], [('call', 0, ())], [('call', 9, (('slice', (97,)),))]][prefix]
+        exp = pre_exp + [('call', hid, (('slice', tuple(pay)),))] + ([('call', 1 if prefix == 1 else 2, ())] if suffix else []) + ([('call', 2, ())] if probe else [])
         if s.twin:
             exp = exp[:-1] if len(exp) > 1 else exp + [('call', 2, ())]
         if s.entry == 'run':
@@ -426,10 +443,10 @@ class PayloadCheck:
         if v:
             m = v[1] if v[1] is not None else ex.path_model()
             wit = model_bytes(m, s.msg)
-            has_nl = b'\n' in wit[:-1]
+            has_nl = b'\n' in wit[:-1].replace(b'\nC', b'')
             rec['violations'] = [{'rule': rule, 'what': f'{v[0]}; message {bytes_repr(wit)} via {s.entry}' + (f' N={s.n} chunks={s.chunks}' if s.entry == 'process' else ''),
                                   'input': wit.hex(), 'device': s.dev, 'entry': s.entry, 'n': s.n, 'chunks': s.chunks,
-                                  'role': f'{rule}:{s.entry}:' + ('newline-in-payload' if has_nl else 'no-newline') + (':after-relative-unit' if wit.startswith(b'A:B;') else '')}]
+                                  'role': f'{rule}:{s.entry}:' + ('newline-in-payload' if has_nl else 'no-newline') + (':after-relative-unit' if wit.startswith(b'A:B;') else ':after-string-unit' if wit.startswith(b'S "a";') else '')}]
         if hash(tuple(map(str, ex.decisions))) % 31 == 0:
             rec['sample'] = {'message': bytes_repr(model_bytes(ex.path_model(), s.msg)), 'entry': s.entry, 'chunks': s.chunks}
         return rec
@@ -481,6 +498,13 @@ LEX_BASE = [
     ('T3', [(False, ['SYSTem', 'ERRor', 'NEXT'], True, [])]),
     ('T3', [(False, ['SYSTem', 'ERRor'], True, []), (False, ['SYSTem', 'ERRor', 'COUNt'], True, [])]),
     ('T3', [(False, ['SYSTem', 'VERSion'], True, [])]),
+    ('TL', [(False, ['ZZ'], False, []), (True, ['Z_'], False, []), (True, ['Z0'], False, [])]),
+    ('TL', [(False, ['MEASure', 'VOLT_AC'], True, []), (False, ['CURRent'], True, [])]),
+    ('TL', [(False, ['RANGe_1', 'AUTO'], False, [b'ON'])]),
+    ('TL', [(False, ['MATH', 'OPeration', 'MULTiplyFloat'], True, [])]),
+    ('TL', [(False, ['CONFigurationOfTheInstrument', 'VALue'], False, [b'5'])]),
+    ('TL', [(False, ['OUTPutStageNumber1', 'STATe'], True, []), (True, ['STATe'], True, [])]),
+    ('TL', [(False, ['A1x', 'B_2y', 'C3d'], False, []), (False, ['*OPC'], True, [])]),
 ]
 
 
